@@ -41,6 +41,66 @@ CHECKS["C17"] = dict(
    note="Trusted: as C14. Across-basis comparison converts the monomial output exactly (model poly2cheb) and compares within the conversion's backward-error scale, degree <= 39.",
    technique="Lean 4 proof about an oracle-parametrised model + pairwise differential comparison of real runs",
    design="7/C17")
+CHECKS["C01"] = dict(
+   category="translation_validation",
+   text="Proven validator: validC01_sound (QSP/Properties/C01.lean) shows, for all inputs, that acceptance implies d+1 phases whose response computed from the mathematical definition (respDef over C, both Wx/x and Wz/z) equals suc*(p + eps/2 x^d) within 100*tol at EVERY a in [-1,1], hence p within (1-suc)max|p| + eps/2 + 100 tol (budget_corollary); fromAnglesBall_sound bounds the effect of enclosing cos/sin of the returned binary64 phases in the spectral norm. Each run calls the real QuantumSignalProcessingPhases on ~450 (polynomial, settings, model, seed vector) cases with every outcome of the internal random root choice forced (all 2^k for small k), and applies the validator to whatever is returned; a rejection is turned into an exact witness point via the proven response enclosure (respBall_sound).",
+   note='''Trusted: Lean kernel + Mathlib, axioms propext/Classical.choice/Quot.sound, the compiled model driver executing the validator, the Python harness (float->Fraction, seed forcing by patching numpy.random.randint in the harness process, generators). ''' + "Which inputs the floating-point pipeline completes on is explored (sampled polynomials / settings), not proved: the set of runs is explored, every returned result is judged by the proven validator.",
+   technique="Lean 4 proven validator (translation validation of each run) + exhaustive forcing of the random root choice",
+   design="7/C01")
+CHECKS["C02"] = dict(
+   category="translation_validation",
+   text="Proven validator: validC02_sound shows that acceptance implies d+1 phases whose Wx sequence has <0|U(a)|0> (respDef .Wx .z) equal to P(a) within 100*tol at every a in [-1,1]. Each run calls the real entry point with signal_operator Wx, measurement z on ~240 complex polynomials (corners of phase lists in 6 styles, perturbed, scaled past 1, |P(+-1)| != 1) over a tolerance grid; returned phases are judged by the validator (exact witness search on rejection).",
+   note='''Trusted: Lean kernel + Mathlib, axioms propext/Classical.choice/Quot.sound, the compiled model driver executing the validator, the Python harness (float->Fraction, seed forcing by patching numpy.random.randint in the harness process, generators). ''' + "The set of inputs is sampled; whether the pipeline returns is explored.",
+   technique="Lean 4 proven validator applied to every returned phase list",
+   design="7/C02")
+CHECKS["C03"] = dict(
+   category="exploration",
+   text="What is PROVED (QSP/Properties/C03.lean): in exact arithmetic every inside/outside selection of the root pairs yields the same self-reciprocal product up to a non-zero constant absorbed by the normalisation (completion_any_seed, completion_normalised), so the algorithm cannot fail on account of the random choice; and every returned result is judged by the proven validators of C01 / C02. What is EXPLORED: that the binary64 pipeline also succeeds on the two stated families - per sampled polynomial ALL 2^k seed vectors are forced (complete enumeration for k<=7 quick / 12 thorough) and a raise is a violation with (polynomial, seed bits) as replay.",
+   note='''Trusted: Lean kernel + Mathlib, axioms propext/Classical.choice/Quot.sound, the compiled model driver executing the validator, the Python harness (float->Fraction, seed forcing by patching numpy.random.randint in the harness process, generators). ''' + "Success of floating-point root finding / least squares on a family of inputs is not a theorem one can prove here (DESIGN.md section 9); the family itself is sampled.",
+   technique="Lean 4 theorem on the exact-arithmetic algorithm + exhaustive seed enumeration on sampled family members + proven validators",
+   design="7/C03")
+CHECKS["C04"] = dict(
+   category="translation_validation",
+   text="Proven validator: validC04_sound shows that acceptance implies G of F's length and |coeff_k(F F~ + G G~ - 1)| < tol for every k, for the exact rational values of the returned floats (validC04_pointwise: hence | |F(w)|^2+|G(w)|^2 - 1 | <= (2n+1) tol on the whole circle); completion_any_seed covers every seed in exact arithmetic. Each run calls completion_from_root_finding(F, 'F', seed, tol) for every seed vector in {0,1}^n (exhaustive n<=6 quick / 10 thorough, sampled beyond, plus None), checks identity part == F exactly, G real / finite / same length and lowest power, and applies the validator; inside the stated family a raise at the default tol is a violation.",
+   note='''Trusted: Lean kernel + Mathlib, axioms propext/Classical.choice/Quot.sound, the compiled model driver executing the validator, the Python harness (float->Fraction, seed forcing by patching numpy.random.randint in the harness process, generators). ''' + "That the binary64 root finder succeeds on the stated family is explored (complete seed enumeration per sampled F), not proved.",
+   technique="Lean 4 proven validator (exact rational re-derivation) + exhaustive seed enumeration",
+   design="7/C04")
+CHECKS["C05"] = dict(
+   category="translation_validation",
+   text="Proven validator: validC05_sound shows that acceptance implies unitarity within tol and, for every t, |((A(t)+A(-t))/2 + i (B(t)+B(-t))/2) - P(cos t)| <= 1e-9 |P|_1, i.e. the Hadamard-conjugated corner of the returned element is P (purely algebraic, no trigonometric enclosure). Each run calls completion_from_root_finding(P, 'P') on ~160 corner polynomials of degree 1..16 (6 styles) and non-corners, and applies the validator to every returned element.",
+   note='''Trusted: Lean kernel + Mathlib, axioms propext/Classical.choice/Quot.sound, the compiled model driver executing the validator, the Python harness (float->Fraction, seed forcing by patching numpy.random.randint in the harness process, generators). ''' + "Inputs are sampled; np.roots and the threshold-based root classification of _pq_completion are oracles whose results are judged, not modelled.",
+   technique="Lean 4 proven validator applied to every returned completion",
+   design="7/C05")
+CHECKS["C06"] = dict(
+   category="translation_validation",
+   text="Proven validator: validC06_sound shows that acceptance implies n+1 phases whose DEFINED sequence is within 1e-8 (spectral norm) of the original at every point of the circle, every sin(phi'_k - phi_k) within 1e-7 of 0, and an even number of k with cos(phi'_k - phi_k) < 0 (the sign gauge). Each run does the round trip angseq(unitary_from_angles(phi)) for EVERY n = 1..32 with four interior patterns, special end phases and all sign patterns for small n; the literal coefficient-wise clause is re-checked in exact rationals on the library-built elements.",
+   note='''Trusted: Lean kernel + Mathlib, axioms propext/Classical.choice/Quot.sound, the compiled model driver executing the validator, the Python harness (float->Fraction, seed forcing by patching numpy.random.randint in the harness process, generators). ''' + "The coefficient-wise reading follows from the pointwise one by |c_k| <= sup|f| (Fourier), which is used as mathematics, not machine-checked; phase vectors are sampled within the stated family.",
+   technique="Lean 4 proven validator for the round trip + exact coefficient comparison",
+   design="7/C06")
+CHECKS["C07"] = dict(
+   category="translation_validation",
+   text="Proven validator: validC07_sound shows that acceptance implies n+1 phases and |A(w)/suc - p(w)| < eps at EVERY point of the unit circle, A = (Ucirc theta phi)_00 the identity part of the Wz sequence DEFINED by the phases. Each run calls angle_sequence(p, eps, suc) on ~220 (p, eps, suc, seed vector) cases in and around the stated box and applies the validator; a raise inside the box is a violation unless it is the listed known finding (tiny capitalised extreme coefficient), which is replayed from the corpus on every run.",
+   note='''Trusted: Lean kernel + Mathlib, axioms propext/Classical.choice/Quot.sound, the compiled model driver executing the validator, the Python harness (float->Fraction, seed forcing by patching numpy.random.randint in the harness process, generators). ''' + "That the pipeline returns inside the box is explored. One genuine defect is recorded in known_findings.json.",
+   technique="Lean 4 proven validator applied to every returned phase list + forced seeds",
+   design="7/C07")
+CHECKS["C12"] = dict(
+   category="proof",
+   text="Lean theorems (QSP/Properties/C12.lean) prove for every reduced-phase list, parity and update history that the protocol state equals that of a freshly built protocol on the last reduced phases, that the full list is the palindrome layout (2k resp. 2k-1 entries, doubled centre), that respDef .Wx .z phi (-a) = (-1)^(len-1) respDef .Wx .z phi a (so Im<0|U|0> has the protocol's parity) and that U is a symmetric matrix for every layout. Each run compares the real SymmetricQSPProtocol with the model: layouts after random update histories (exact), gen_unitary / gen_response_* against the proven response enclosure, gen_jacobian against the product-rule specification computed exactly by the model.",
+   note='''Trusted: Lean kernel + Mathlib, axioms propext/Classical.choice/Quot.sound, the compiled model driver executing the validator, the Python harness (float->Fraction, seed forcing by patching numpy.random.randint in the harness process, generators). ''' + "PARTIAL: that the product-rule specification (jacSpec) is the true derivative, and that the 3x3 recurrences + FFT of the code compute it, is carried by the comparison (agreement 2e-15), not by a theorem.",
+   technique="Lean 4 proof (layout invariant, parity) + differential correspondence (layout exact, response, Jacobian)",
+   design="7/C12")
+CHECKS["C13"] = dict(
+   category="translation_validation",
+   text="Proven validator: validC13_sound shows that acceptance implies |Im<0|U_x(a)|0> - sum_k c_k T_{2k+par}(a)| <= 1e-10 at every a in [-1,1] for the protocol's full phases; newtonExit_spec / _le_maxiter / _maxiter_lt_one (QSP/Properties/C13Flow.lean) prove the control flow (least iteration at which a break fires, error reported from before the last update, never above an integer maxiter >= 1). Each run calls newton_Solver on ~70 targets (k up to 80, both parities, crit / maxiter settings incl. maxiter firing first), compares (err, iter) with the model on the recorded per-iteration errors, checks phases == protocol.reduced_phases, the layout, the convergence claim and applies the validator.",
+   note='''Trusted: Lean kernel + Mathlib, axioms propext/Classical.choice/Quot.sound, the compiled model driver executing the validator, the Python harness (float->Fraction, seed forcing by patching numpy.random.randint in the harness process, generators). ''' + "Convergence of Newton's method for every target of 1-norm <= 0.9 (Dong-Lin-Ni-Wang) is explored, not proved.",
+   technique="Lean 4 proven validator + proven control-flow model compared on recorded traces",
+   design="7/C13")
+CHECKS["C15"] = dict(
+   category="translation_validation",
+   text="Proven certificate: chebSupLe_sound shows that acceptance implies |sum_k c_k T_k(x)| <= B for EVERY x in [-1,1] (adaptive exact-rational bisection on Cayley points with an algebraic second-order bound, supLeReal_sound); a refusal is decided by an exact witness value (chebEval_spec). Each run generates ~70 bounded polynomials over the 12 generators x both bases x max_scale in (0,1] (monomial outputs converted exactly, poly2cheb_spec) and decides max|p| <= bound*(1+1e-3) over the continuum.",
+   note='''Trusted: Lean kernel + Mathlib, axioms propext/Classical.choice/Quot.sound, the compiled model driver executing the validator, the Python harness (float->Fraction, seed forcing by patching numpy.random.randint in the harness process, generators). ''' + "Argument tuples are sampled. The defect found by this check (scale computed from a local maximum) was repaired by a fix: commit (known_findings.json).",
+   technique="Lean 4 proven sup-norm certificate over the continuum applied to every generated polynomial",
+   design="7/C15")
 NOT_APPLICABLE = {}
 
 def main():
